@@ -22,3 +22,4 @@ def check(run, views, tier):
         rr.r_errwrap(run, F)
         rr.r_readexact(run, F)
         rr.r_dispatch(run, F)
+        rr.r_token(run, F)
